@@ -8,7 +8,7 @@
    (all switch settings x cache modes, repeats, clear_cache, cache-mode changes, re-set_up for the same and
    other geometries) together with the cache call-outs and directly computed reference rows.
 3. TLC (Trace_Symmetries, Trace_MatrixCache) must explain every recorded line."""
-import os, json, time
+import os, json, time, re
 import concurrent.futures as cf
 from . import lib
 
@@ -18,8 +18,9 @@ KNOWN_CLASS = "C03-zoutside"
 def _model_checks(ctx):
     q = ctx.quick
     w = 4 if q else 8
-    r = lib.tlc("MC_Symmetries", cfg="MC_Symmetries" if q else "MC_Symmetries_thorough", workers=w, timeout=1500, heap="6g")
-    ctx.mc_must_pass(r, "symmetry algebra S1-S3, switch guards, every operation class used", "MC_Symmetries")
+    for cfg in (["MC_Symmetries"] if q else ["MC_Symmetries_thorough", "MC_Symmetries_thorough2", "MC_Symmetries_thorough3"]):
+        r = lib.tlc("MC_Symmetries", cfg=cfg, workers=w, timeout=2400, heap="6g")
+        ctx.mc_must_pass(r, "symmetry algebra S1-S3, switch guards, every operation class used (%s)" % cfg, "MC_Symmetries")
     lib.log("  [%4.0fs] MC_Symmetries done" % (time.time() - ctx.t0))
     r = lib.tlc("MC_MatrixCache", cfg="MC_MatrixCache" if q else "MC_MatrixCache_thorough", workers=w, timeout=1500, heap="6g")
     ctx.mc_must_pass(r, "row cache and set-up life cycle, all short histories; cache key injective (S4)", "MC_MatrixCache")
@@ -29,6 +30,14 @@ def _model_checks(ctx):
         if not r.violation:
             raise lib.ModelFailure("faulty variant '%s' of MatrixCache.tla is not refuted: the invariants have lost their teeth" % d)
         ctx.notes.append("faulty model variant %s refuted after %d states" % (d, r.generated))
+    if not q:
+        # every action of the cache model is taken (coverage of a shallow run)
+        r = lib.tlc("MC_MatrixCache", cfg="MC_MatrixCache_cov", workers=2, timeout=900, heap="4g", coverage=True)
+        acts = re.findall(r"^<(\w+) line \d+, col \d+ to line \d+, col \d+ of module MC_MatrixCache[^>]*>: (\d+):(\d+)", r.out, re.M)
+        dead = [a for a in acts if int(a[2]) == 0]
+        if not r.ok or len(acts) < 7 or dead:
+            raise lib.ModelFailure("coverage of MC_MatrixCache: %s" % (dead or acts))
+        ctx.notes.append("coverage: all %d action disjuncts of MC_MatrixCache taken" % len(acts))
     lib.log("  [%4.0fs] MC_MatrixCache (+3 faulty variants) done" % (time.time() - ctx.t0))
 
 
